@@ -9,6 +9,20 @@ E1 = "SMT-based symbolic execution of the compiled x86/AVX2/AVX-512 kernels lift
 TRUST = "trusted: z3, go/ssa (x/tools v0.29.0) and the executors (each sat is replayed natively; stubs/assumptions listed in the evidence)"
 
 claimed = {
+ "C01": ("E1+E2", "§5.1, §10.4", "stage 1 = REF-SCAN on a symbolic 64-byte block with arbitrary carry for both kernel families and the slice drivers (E1: A1-A7), parseNumber = RFC 8259 number DFA (P2), stage 2 = general reference parser on every layout of <= 3 structural tokens with symbolic bytes plus valid skeletons up to 11 tokens with each token free in turn (P3), the whole synchronous parseMessage incl. the Go stage-1 driver, multi-block messages and index-buffer hand-over (U1)",
+          "token/byte bounds as in evidence; escapes inside strings are decided by the E1 string lemmas (C04) and excluded from P3/U1; stage-1 kernel, number parser and string decoder enter P3/U1 as the contracts their own lemmas establish; composition over blocks by induction (argued); " + TRUST),
+ "C05": ("E1+E2", "§5.5", "the memory-safety obligations of every assembly lemma (loads/stores inside caller-provided extents, index-buffer store bound), and the panic / bounds / unwinding / blocks-forever obligations of parseNumber, unifiedMachine and the whole synchronous parseMessage (channel empty on every exit) on all inputs within the bounds",
+          "bounds as C01; asynchronous termination is C07, traversal of deserialized tapes C19; " + TRUST),
+ "C08": ("E1+E2", "§5.8", "stage 1 with ndjson=1 (unquoted LF structural, quoted LF not: A5, A7), stage 2 and the whole parseMessage in ndjson mode against REF-ND (roots separated by newline runs, blank lines, bad line, two documents on a line) on all layouts within the bounds",
+          "<= 3 tokens fully symbolic + ndjson skeletons up to 11 tokens; " + TRUST),
+ "C15": ("E2", "§5.15", "one parseMessage call from an arbitrary (havoc'd) prior state of every reusable field, one newInternalParsedJson adoption with arbitrary stale options, one Serialize/Deserialize with havoc'd Serializer and destination: outcome equals the reference that never sees the prior state; the representation invariant (index channel empty) is re-established on every exit, so the result holds for any history",
+          "bounds of U1/Z1; asynchronous path: C07; allocator behaviour outside; " + TRUST),
+ "C16": ("E2", "§5.16", "Clone (nil / zero / used destination) then interleaved Set* edits on both sides and wholesale overwrite of the original's buffers: each side keeps its own document (K1); every copy-mode tape lemma runs with an arbitrary Message (K2); this call's options decide string copying whatever the reused object held (U2); copy mode flags every string (P3)",
+          "tapes <= 5/6 words for K1; ParseNDStream values: C09; " + TRUST),
+ "C17": ("E2", "§5.17", "refWF (README tape format, strict NOP runs) asserted on every accepting path of unifiedMachine/parseMessage in both modes and on every Deserialize(Serialize(tape)) result",
+          "bounds of P3/U1/Z1; " + TRUST),
+ "C18": ("E2", "§5.18, §10.7", "appendFloat = transcription of encoding/json's float encoder on every bit pattern (format switch, exponent clean-up, non-finite => error: FP theory); appendFloatF (bit decomposition, precision, fmtF) = strconv.AppendFloat 'f' executed from the toolchain's SSA for every digit count/decimal point, digit generator opaque on both sides",
+          "NOT decided: that the repository's copy of the Ryu digit generator (ryuFtoaShortest and callees) equals strconv's — a symbolic comparison ran out of reach (128-bit products x data-dependent digit loops), see DESIGN §10.7; shortest-round-trip itself is inherited from the Go standard library (trusted); " + TRUST),
  "C03": ("E2", "§5.3", "parseNumber (through addNumber) on fully symbolic buffers against the RFC 8259 number DFA and the int64/uint64/float+flag typing rule with exact 128-bit integer values; the read side (Int/Uint/Float/FloatFlags, As*) on every 64-bit payload",
           "buffers <= 10 (quick) / 24 (thorough) bytes fully symbolic, longer ones with a digit run in the middle; strconv.ParseInt/ParseUint/ParseFloat are contracts: correct rounding of ParseFloat is TRUSTED (Go standard library), the check covers which bytes are converted and how the result is typed and flagged; " + TRUST),
  "C04": ("E1", "§5.4", "the string decoder's machine code (_parse_string_validate_only, _parse_string) lifted from the freshly built test binary: one decoder iteration from an arbitrary cursor = REF-STR step (inductive over length/alignment), whole runs of 2 (quick) / 3 (thorough) iterations, copy = validate lengths, loads/stores inside the caller-provided extents; quote/backslash carry across 64-byte blocks (A1/A2, both kernel families)",
@@ -42,11 +56,12 @@ checks = []
 for p in props:
     if p in claimed and os.path.exists("%s/vsym/props/%s.py" % (V, p)):
         eng, ref, text, note = claimed[p]
+        eng = eng.split("+")[0] if eng != "E1+E2" else "E1+E2"
         checks.append({
             "property_id": p, "quick_cmd": "./check %s --tier quick" % p, "thorough_cmd": "./check %s --tier thorough" % p,
             "evidence_file": "%s/evidence/%s.json" % (V, p), "replay_cmd_template": "cat {path}", "engine": eng,
             "level_claimed": {"category": "model_checking", "text": text, "design_ref": ref},
-            "level_note": note, "technique": E1 if eng == "E1" else E2})
+            "level_note": note, "technique": E1 if eng == "E1" else (E2 if eng == "E2" else E1 + "; " + E2)})
 m = {
  "version": 1,
  "setup_cmd": "cd /verif && GOFLAGS=-mod=mod GOPROXY=off GOSUMDB=off GOTOOLCHAIN=local go build -o bin/ssa2vir ./cmd/ssa2vir",
